@@ -1,5 +1,6 @@
 import FitProps.C16Core
 import FitProps.C16Cut
+import FitProps.C16Opts
 /-!
   C16 — decode options only add information; unknown-item counts are exact.
 
@@ -7,5 +8,8 @@ import FitProps.C16Cut
   * `C16Core.lean`: options are transparent, lists only when asked and sorted, the counters count
     (`bump_counts`), exact counts on a successful decode (`unknown_counts_exact`);
   * `C16Cut.lean`: when decoding fails part-way the counters account for every completed record
-    (`unknown_counts_on_cut`; the counters only grow while a record is read, `oneRecord_cnt`).
+    (`unknown_counts_on_cut`; the counters only grow while a record is read, `oneRecord_cnt`);
+  * `C16Opts.lean`: the option list itself (`FitModel/Options.lean`: the options applied in order to
+    the zero record) — order and repetitions do not matter (`options_order_irrelevant`, `options_perm`,
+    `decode_options_order`) and a later option never undoes an earlier one (`options_only_add`).
 -/
